@@ -1,7 +1,209 @@
-(** C20 - property theorems (statements only; proofs are in C20/Proofs.v). *)
-From Coq Require Import List NArith Bool String.
+(** C20 - property theorems (statements only; proofs are in C20/Proofs.v).
+
+    Reading guide: a *schedule* is the order in which the thread pool executes the tasks of a
+    parallel loop; a *map order* is the order in which a hash map with a fresh random state yields
+    its entries.  The theorems say that the modelled mechanisms return the same value for every
+    schedule / every map order; the `_order_dependent` theorems show that the quantifier is not
+    vacuous (the rules before the repairs F11, F19, F16 and a parallel floating-point reduction
+    fail it; so did the impurity sums of the decision tree before the repair F41). *)
+From Coq Require Import List NArith Bool Permutation Reals Floats.
 From LinfaVerif Require Import Common.Num Common.NdSum C09.Model C20.Model gen.C20_seeds C20.Proofs.
 Import ListNotations.
+
+(** ** Parallel loops *)
+
+(** a parallel loop whose task i writes only cell i and reads only shared input returns the
+    sequential result for every schedule that is a permutation of the tasks, whatever the output
+    array contained before *)
+Theorem par_for_each_confluent : forall (I C : Type) (inp : I) (tasks : list (I -> C)) (sched : list nat) (init : list C),
+  length init = length tasks ->
+  Permutation sched (seq 0 (length tasks)) ->
+  run_sched inp tasks sched init = run_seq inp tasks.
+Proof.
+  intros I C inp tasks sched init Hl P. apply run_sched_covering; auto.
+  apply perm_range_covers; exact P.
+Qed.
+
+(** the same for any chunking of the tasks over workers and any interleaving of the workers *)
+Theorem par_for_each_chunked_confluent : forall (I C : Type) (inp : I) (tasks : list (I -> C))
+    (chunks : list (list nat)) (il : list nat) (init : list C),
+  length init = length tasks ->
+  Permutation (concat chunks) (seq 0 (length tasks)) ->
+  interleave chunks il ->
+  run_sched inp tasks il init = run_seq inp tasks.
+Proof.
+  intros I C inp tasks chunks il init Hl P Hi. apply par_for_each_confluent; auto.
+  apply Permutation_trans with (concat chunks); auto. apply interleave_perm; auto.
+Qed.
+
+(** the three parallel loops of k-means are instances, in every arithmetic (binary64 included):
+    whatever the schedule and the stale content of the output arrays, they compute the arg-min
+    assignment / index / distance of the sequential model of C09 *)
+Theorem kmeans_loops_schedule_independent : forall F (o : NumOps F) m (cs X : list (list F)) (s : list nat),
+  Permutation s (seq 0 (length X)) ->
+  (forall old, length old = length X -> update_memberships_and_dists o m cs X s old = assign o m cs X) /\
+  (forall old, length old = length X -> update_cluster_memberships o m cs X s old = predict o m cs X) /\
+  (forall old, length old = length X -> update_min_dists o m cs X s old = transform o m cs X).
+Proof.
+  intros F o m cs X s P. pose proof (perm_range_covers _ _ P) as Hc. repeat split; intros old Hl.
+  - apply update_memberships_and_dists_covering; auto.
+  - apply update_cluster_memberships_covering; auto.
+  - apply update_min_dists_covering; auto.
+Qed.
+
+(** the whole `KMeans::fit` (Lloyd iterations, restarts, persistent membership / distance arrays,
+    sequential `dists.sum()`), run with an arbitrary schedule for each of its parallel loops, returns
+    exactly what the sequential model returns - bit for bit in binary64, since this holds for every NumOps *)
+Theorem kmeans_fit_schedule_independent : forall F (o : NumOps F) m tol fuel k inits (X : list (list F)) (scheds : list (list nat)),
+  Forall (fun s => Permutation s (seq 0 (length X))) scheds ->
+  fit_par o m tol fuel k inits X scheds = fit o m tol fuel k inits X.
+Proof.
+  intros F o m tol fuel k inits X scheds H. apply fit_par_eq.
+  eapply Forall_impl; [|exact H]. intros s P. exact (perm_range_covers _ _ P).
+Qed.
+
+(** contrast: had the reduction been taken in schedule order, binary64 results would depend on the schedule *)
+Theorem parallel_reduction_order_dependent : exists (xs : list float) (s1 s2 : list nat),
+  Permutation s1 s2 /\ reduce_in_order B64_ops xs s1 <> reduce_in_order B64_ops xs s2.
+Proof.
+  exists [0x1p+53; 1; 1]%float, [0; 1; 2]%nat, [1; 2; 0]%nat. split.
+  - exact (Permutation_cons_append [1; 2]%nat 0%nat).
+  - exact reduce_order_dependent_b64.
+Qed.
+
+(** ** Hash-map iteration order *)
+
+(** decision-tree leaf prediction (after F11): the modal class does not depend on the map order *)
+Theorem modal_class_order_independent : forall (e1 e2 : list (N * R)),
+  Permutation e1 e2 -> modal_class R_ops e1 = modal_class R_ops e2.
+Proof. intros e1 e2 P. unfold modal_class. rewrite (modal_fold_perm e1 e2 P). reflexivity. Qed.
+
+(** ... and it is a class of maximal weight, the smallest such label *)
+Theorem modal_class_is_least_maximal : forall (e : list (N * R)) l,
+  modal_class R_ops e = Some l ->
+  exists w, In (l, w) e /\ forall l' w', In (l', w') e -> (w' < w)%R \/ (w' = w /\ (l <= l')%N).
+Proof.
+  intros e l H. unfold modal_class in H.
+  destruct (fold_left (modal_step R_ops) e None) as [[l0 w]|] eqn:E; [|discriminate].
+  simpl in H. inversion H; subst l0. destruct (modal_max_spec e (l, w) E) as [Hin Hall].
+  exists w; split; auto. intros l' w' Hin'. destruct (Hall _ Hin') as [[Hw|[Hw Hl]]|Heq]; simpl in *.
+  - left; exact Hw.
+  - right; split; [congruence | apply N.lt_le_incl; exact Hl].
+  - inversion Heq; subst. right; split; [reflexivity | apply N.le_refl].
+Qed.
+
+(** the rule before F11 depended on the order (two classes of equal weight) *)
+Theorem modal_class_old_order_dependent : exists e1 e2 : list (N * float),
+  Permutation e1 e2 /\ modal_class_old B64_ops e1 <> modal_class_old B64_ops e2.
+Proof.
+  exists [(7%N, 2%float); (3%N, 2%float)], [(3%N, 2%float); (7%N, 2%float)]. split.
+  - apply perm_swap.
+  - exact ex_modal_old_order_dependent.
+Qed.
+
+(** ... while it was order free exactly when the maximal weight is attained by a single class *)
+Theorem modal_class_old_invariant_if_unique_max : forall (e1 e2 : list (N * R)) m,
+  Permutation e1 e2 -> In m e1 -> (forall e, In e e1 -> e <> m -> (snd e < snd m)%R) ->
+  modal_class_old R_ops e1 = modal_class_old R_ops e2.
+Proof.
+  intros e1 e2 m P Hin Hu. rewrite (modal_old_unique_max e1 m Hin Hu).
+  symmetry. apply modal_old_unique_max.
+  - exact (Permutation_in m P Hin).
+  - intros e He Hne. apply Hu; auto. exact (Permutation_in e (Permutation_sym P) He).
+Qed.
+
+(** sorting entries with pairwise distinct keys (what a map yields) forgets the map order *)
+Theorem sort_by_key_order_independent : forall (A : Type) (e1 e2 : list (N * A)),
+  NoDup (map fst e1) -> Permutation e1 e2 -> sort_by_key e1 = sort_by_key e2.
+Proof. intros A e1 e2 ND P. apply sort_by_key_order_free; auto. Qed.
+
+(** naive-Bayes prediction (after F19) does not depend on the order of the class map, in every arithmetic *)
+Theorem nb_predict_order_independent : forall F (o : NumOps F) (e1 e2 : list (N * list F)) nq,
+  NoDup (map fst e1) -> Permutation e1 e2 -> nb_predict o e1 nq = nb_predict o e2 nq.
+Proof. intros F o e1 e2 nq ND P. unfold nb_predict. rewrite (sort_by_key_order_free e1 e2 ND P). reflexivity. Qed.
+
+Theorem nb_predict_old_order_dependent : exists e1 e2 : list (N * list float),
+  NoDup (map fst e1) /\ Permutation e1 e2 /\ nb_predict_old B64_ops e1 1 <> nb_predict_old B64_ops e2 1.
+Proof.
+  exists [(1%N, [0]%float); (2%N, [0]%float)], [(2%N, [0]%float); (1%N, [0]%float)]. repeat split.
+  - repeat constructor; simpl; intuition discriminate.
+  - apply perm_swap.
+  - exact ex_nb_old_order_dependent.
+Qed.
+
+(** consumers that sort the label set (naive-Bayes fit, confusion matrix) see one order only *)
+Theorem labels_sorted_order_independent : forall o1 o2 : list N,
+  NoDup o1 -> Permutation o1 o2 -> labels_sorted o1 = labels_sorted o2.
+Proof.
+  intros o1 o2 ND P. unfold labels_sorted. f_equal. apply sort_by_key_order_free.
+  - rewrite map_map. simpl. rewrite map_id. exact ND.
+  - apply Permutation_map. exact P.
+Qed.
+
+(** integer reductions over map values (class counts) are order free *)
+Theorem count_sum_order_independent : forall e1 e2 : list (N * N),
+  Permutation e1 e2 -> count_sum e1 = count_sum e2.
+Proof. intros e1 e2 P. unfold count_sum. apply fold_left_Nadd_perm. apply Permutation_map. exact P. Qed.
+
+(** the silhouette's minimum over the other clusters is order free *)
+Theorem silhouette_min_order_independent : forall v1 v2 : list R,
+  Permutation v1 v2 -> min_over R_ops v1 = min_over R_ops v2.
+Proof. exact min_over_perm. Qed.
+
+(** hierarchical clustering (after F16): cluster numbers do not depend on the map order *)
+Theorem hier_labels_order_independent : forall n (c1 c2 : list (N * list N)),
+  NoDup (map fst c1) -> Permutation c1 c2 -> hier_labels n c1 = hier_labels n c2.
+Proof. intros n c1 c2 ND P. unfold hier_labels. rewrite (sort_by_key_order_free c1 c2 ND P). reflexivity. Qed.
+
+Theorem hier_labels_old_order_dependent : exists n (c1 c2 : list (N * list N)),
+  NoDup (map fst c1) /\ Permutation c1 c2 /\ hier_labels_old n c1 <> hier_labels_old n c2.
+Proof.
+  exists 3%nat, [(4, [0; 1]); (2, [2])]%N, [(2, [2]); (4, [0; 1])]%N. repeat split.
+  - exact ex_sort_nodup.
+  - apply perm_swap.
+  - exact ex_hier_old_order_dependent.
+Qed.
+
+(** sums of integer-valued weights below the exactness bound of the arithmetic (2^24 for binary32:
+    unit-weight class frequencies `values().sum::<f32>()`) are exact and therefore order free.
+    The exactness of small-integer addition is a hypothesis here (it is an IEEE fact, not proved for
+    the SpecFloat instance; `ex_b32_small_int_add` spot-checks it at the bound). *)
+Theorem small_int_sum_order_independent : forall F (o : NumOps F) (bound : N),
+  (forall a b, (a + b <= bound)%N -> add o (of_N o a) (of_N o b) = of_N o (a + b)) ->
+  of_N o 0%N = zero o ->
+  forall n1 n2 : list N, Permutation n1 n2 -> (fold_left N.add n1 0 <= bound)%N ->
+  seq_sum o (map (of_N o) n1) = seq_sum o (map (of_N o) n2).
+Proof.
+  intros F o bound Hex H0 n1 n2 P Hb.
+  rewrite (seq_sum_small_ints o bound Hex H0 n1 Hb).
+  rewrite (seq_sum_small_ints o bound Hex H0 n2); [|rewrite <- (fold_left_Nadd_perm n1 n2 P); exact Hb].
+  rewrite (fold_left_Nadd_perm n1 n2 P). reflexivity.
+Qed.
+
+(** tree impurity (after F41): the class weights are summed in class order, so the impurity does
+    not depend on the map order - in every arithmetic, binary32 / binary64 included *)
+Theorem gini_impurity_order_independent : forall F (o : NumOps F) (e1 e2 : list (N * F)),
+  NoDup (map fst e1) -> Permutation e1 e2 -> gini_impurity o e1 = gini_impurity o e2.
+Proof. intros F o e1 e2 ND P. unfold gini_impurity. rewrite (sort_by_key_order_free e1 e2 ND P). reflexivity. Qed.
+
+(** the rule before F41 (`HashMap::values()` summed in map order) was order free in exact arithmetic only ... *)
+Theorem gini_order_independent_exact : forall w1 w2 : list R,
+  Permutation w1 w2 -> gini R_ops w1 = gini R_ops w2.
+Proof. exact gini_perm_R. Qed.
+
+(** ... and order dependent in floating point once three classes are present *)
+Theorem gini_impurity_old_order_dependent : exists e1 e2 : list (N * float),
+  NoDup (map fst e1) /\ Permutation e1 e2 /\ gini_impurity_old B64_ops e1 <> gini_impurity_old B64_ops e2.
+Proof.
+  exists [(1%N, 0x1.999999999999ap-4%float); (2%N, 0x1.999999999999ap-3%float); (3%N, 0x1.3333333333333p-2%float)],
+         [(3%N, 0x1.3333333333333p-2%float); (2%N, 0x1.999999999999ap-3%float); (1%N, 0x1.999999999999ap-4%float)].
+  repeat split.
+  - repeat constructor; simpl; intuition discriminate.
+  - apply (Permutation_rev [(1%N, 0x1.999999999999ap-4%float); (2%N, 0x1.999999999999ap-3%float); (3%N, 0x1.3333333333333p-2%float)]).
+  - exact ex_gini_old_order_dependent_b64.
+Qed.
+
+(** ** Random number generators and parallel constructs of the sources (regenerated tables) *)
 
 (** every estimator that creates a generator by itself seeds it with a fixed literal *)
 Theorem defaults_are_seeded : forall e, In e estimators -> default_seed e <> None.
@@ -9,3 +211,16 @@ Proof.
   intros e He. pose proof defaults_seeded_b as H. rewrite forallb_forall in H.
   specialize (H e He). destruct (default_seed e); congruence.
 Qed.
+
+(** every generator that is not seeded with a fixed literal (entropy, optional state defaulting to
+    None, per-thread or caller-derived seeds) sits in a facility the statement excludes *)
+Theorem entropy_only_in_excluded : forall s, In s rng_sites ->
+  is_fixed (s_kind s) = false -> in_excluded (s_file s) (s_fn s) = true.
+Proof.
+  intros s Hs Hk. pose proof non_fixed_excluded_b as H. rewrite forallb_forall in H.
+  specialize (H s Hs). rewrite Hk in H. exact H.
+Qed.
+
+(** the only data-parallel constructs are the three disjoint-cell loops modelled above and the excluded k-means|| sampler *)
+Theorem parallel_constructs_are_known : forall p, In p par_sites -> psite_known p = true.
+Proof. intros p Hp. pose proof parallel_known_b as H. rewrite forallb_forall in H. exact (H p Hp). Qed.
